@@ -182,13 +182,17 @@ def check(ctx):
     ctx.guard('R2', where, r2)
 
     def r3():
-        # interior boundaries only: the writing loop runs new_bin = 1 .. bins-1
-        wl = [l for l in s.loops if l.func is g and 'new_pdf.x' in l.updates and l not in outer]
+        # the loop that writes the result inside the per-dimension loop (identified by what it
+        # writes - the storage returned - not by variable names)
+        ou = upd_by_final(outer[0], fld(s.ret, 'x')) if outer else None
+        if ou is None:
+            raise AnalysisBroken('the boundaries of the returned grid are not written in the per-dimension loop')
+        wl = [l for l in s.loops if l.func is g and l not in outer and upd_by_loc(l, ou['loc']) is not None]
         if len(wl) != 1:
             raise AnalysisBroken('redistribution loop of vegas_refine_pdf not recognised')
         l5 = wl[0]
         w = '%s:vegas_refine_pdf' % l5.node.where()
-        u = l5.updates['new_pdf.x']
+        u = upd_by_loc(l5, ou['loc'])
         nx = u['next']
         i = outer[0].idx
         ok = (l5.lo, l5.hi) == (ONE, bins) and isinstance(nx, tuple) and nx[0] == 'vupd' and \
@@ -202,34 +206,56 @@ def check(ctx):
                           {'range': [T.pretty(l5.lo), T.pretty(l5.hi)],
                            'written': T.pretty(nx[2])[:300] if isinstance(nx, tuple) and nx[0] == 'vupd' else T.pretty(nx)[:300]})
             return
-        # R4: formula of the new boundary
+        # R4: formula of the new boundary: cur - (cur - prev) * (acc - avg) / imp[b - 1]
         new_left = nx[3]
-        bh = None
-        for t in T.subterms(new_left):
-            if isinstance(t, tuple) and t and t[0] == 'havoc' and t[2] == 'bin':
-                bh = t
-        th = None
-        for t in T.subterms(new_left):
-            if isinstance(t, tuple) and t and t[0] == 'havoc' and t[2] == 'this_bin':
-                th = t
-        if bh is None or th is None:
-            raise AnalysisBroken('new boundary does not depend on the accumulated importance')
-        imp_l = [l for l in s.loops if l.func is g and 'average_per_bin' in l.updates]
-        if len(imp_l) != 1:
-            raise AnalysisBroken('importance loop not recognised')
-        l4 = imp_l[0]
-        tmpv = l4.updates['tmp']
-        imp_vec = tmpv['final']
-        avg_u = l4.updates['average_per_bin']
-        avg = div(avg_u['final'], bins)
         xs = fld(PDF, 'x')
         row = mul(i, add(bins, ONE))
+        bh = None
+        for t in T.subterms(new_left):
+            if isinstance(t, tuple) and t and t[0] == 'sel' and t[1] == xs and isinstance(t[2], tuple) and \
+                    t[2][0] == '+' and t[2][1] == row and isinstance(t[2][2], tuple) and t[2][2][0] == 'havoc':
+                bh = t[2][2]
+        if bh is None:
+            raise AnalysisBroken('the old bin the new boundary falls into is not identified')
+        divs = [t for t in T.subterms(new_left) if isinstance(t, tuple) and t and t[0] == '/'
+                and isinstance(t[2], tuple) and t[2] and t[2][0] in ('sel', 'ite')]
+        V = None
+        for t in T.subterms(new_left):
+            if isinstance(t, tuple) and t and t[0] == 'sel' and t[1] != xs and T.occurs(t[2], bh):
+                V = t[1]
+        # the importance vector may have been folded into an ite by sel(); recover it from the loops
+        cand = []
+        for l in s.loops:
+            if l.func is not g or l in outer or l is l5:
+                continue
+            for lab, uu in l.updates.items():
+                if uu['kind'] == 'map' and (l.lo, l.hi) == (ZERO, bins) and \
+                        any(ux['kind'] == 'sum' for ux in l.updates.values()):
+                    cand.append((l, uu))
+        if len(cand) != 1:
+            raise AnalysisBroken('importance loop not recognised (%d candidates)' % len(cand))
+        l4, tmpv = cand[0]
+        imp_vec = tmpv['final']
+        sums = [uu for uu in l4.updates.values() if uu['kind'] == 'sum']
+        if len(sums) != 1:
+            raise AnalysisBroken('sum of the importances not recognised')
+        avg_u = sums[0]
+        avg = div(avg_u['final'], bins)
+        th = None
+        for t in T.subterms(new_left):
+            if isinstance(t, tuple) and t and t[0] == '-' and t[2] == avg and isinstance(t[1], tuple) and t[1][0] == 'havoc':
+                th = t[1]
+        if th is None:
+            ctx.violation('R4.new_boundary', w, 'the overshoot of the accumulated importance over the '
+                          'average importance does not enter the new boundary',
+                          {'new_left': T.pretty(new_left)[:400]})
+            return
         cur = sel(xs, add(row, bh))
         prev = sel(xs, add(row, sub(bh, ONE)))
         want = F.vegas_new_left(cur, prev, sub(th, avg), sel(imp_vec, sub(bh, ONE)))
-        check_equal(ctx, 'R4.new_boundary', w, 'new boundary inside the old bin (bin-1, bin)', new_left, want)
+        check_equal(ctx, 'R4.new_boundary', w, 'new boundary inside the old bin (bin-1, bin), divided by the '
+                    'importance of that bin as computed for THIS dimension', new_left, want)
         # importance function
-        t_ = sel(tmpv['pre'], l4.idx)
         norm = None
         for pc_c in l4.pc:
             if isinstance(pc_c, tuple) and pc_c[0] == 'not' and pc_c[1][0] == '==' and pc_c[1][2] == ZERO:
@@ -240,16 +266,32 @@ def check(ctx):
                           'with norm == 0', {'entered_under': T.pretty(T.conj(l4.pc))[:300]})
             return
         ctx.holds('R4.norm_nonzero', w4, 'the importance loop is entered only under norm != 0')
-        want_imp = ite(T.cmp('!=', t_, ZERO), F.vegas_importance(t_, norm, sym('alpha')), t_)
-        if tmpv['kind'] != 'map' or (l4.lo, l4.hi) != (ZERO, bins):
-            ctx.violation('R4.importance', w4, 'importance is not computed for every bin')
+        body = tmpv['body']
+        # the smoothed datum of the bin: the value tested against zero
+        t_ = None
+        if isinstance(body, tuple) and body[0] == 'ite' and isinstance(body[1], tuple) and body[1][0] == '!=' \
+                and body[1][2] == ZERO:
+            t_ = body[1][1]
+        if t_ is None:
+            raise AnalysisBroken('guard `smoothed datum != 0` of the importance not recognised')
+        if not (isinstance(t_, tuple) and t_[0] in ('sel', 'ite')):
+            raise AnalysisBroken('smoothed datum is not an element of the smoothed data')
+        imp = F.vegas_importance(t_, norm, sym('alpha'))
+        empty = body[3]
+        check_equal(ctx, 'R4.importance', w4, 'damped importance ((r-1)/log r)^alpha with r = smoothed datum / norm',
+                    body[2], imp)
+        # an empty bin must carry importance zero *of this dimension*
+        env = fp.Env({t_: fp.ZERO})
+        ez = fp.ev(empty, env)
+        if ez.cls == fp.ZERO and not ez.tainted:
+            ctx.holds('R4.empty_bins_zero', w4, 'a bin whose smoothed datum is zero has importance zero')
         else:
-            got = T.subst(tmpv['body'], {sel(tmpv['init'], l4.idx): t_})
-            check_equal(ctx, 'R4.importance', w4, 'damped importance ((r-1)/log r)^alpha with r = tmp/norm, '
-                        'zero entries skipped', got, want_imp)
-        want_avg = ite(T.cmp('!=', t_, ZERO), F.vegas_importance(t_, norm, sym('alpha')), ZERO)
-        got = T.subst(avg_u['body'], {sel(tmpv['init'], l4.idx): t_})
-        check_equal(ctx, 'R4.average', w4, 'average importance = sum of the importances / bins', got, want_avg)
+            ctx.violation('R4.empty_bins_zero', w4, 'a bin without data keeps a value that is not the zero '
+                          'importance of this dimension (stale storage from another dimension or an earlier '
+                          'step): the redistribution then places boundaries where this dimension has no data',
+                          {'importance_of_empty_bin': T.pretty(empty)[:300]})
+        want_avg = ite(T.cmp('!=', t_, ZERO), imp, ZERO)
+        check_equal(ctx, 'R4.average', w4, 'average importance = sum of the importances / bins', avg_u['body'], want_avg)
     ctx.guard('R3', where, r3)
 
     from . import C01
